@@ -23,7 +23,10 @@ RULE = ("random add histories (<=10 add calls, 0-3 of them fault-injected at one
         "(get_particle_info(attr / vertex / direction / interaction_info), flavor / is_nubar / is_neutrino, "
         "get_rays_info(polarization / emitted_direction / received_direction / dicts), get_waveforms(antenna_id, "
         "waveform_type incl. 'direct'/'reflected' and the first out-of-range index), get_triggered_components(ray)); "
-        "guard probes: invalid constructor arguments, accessors before the first next(), closed readers / writers")
+        "the detector changed in place after set_detector (antenna objects of the list / of a non-list detector "
+        "object replaced by new ones before some adds); one REAL ray path object (SpecializedRayTracePath, "
+        "BasicRayTracePath) shared by several antennas in one add() with a different polarization per antenna, and "
+        "the paths' own _metadata unchanged afterwards; guard probes: invalid constructor arguments, accessors before the first next(), closed readers / writers")
 LEVEL_TEXT = ("machine-checked Lean 4 theorems (induction over unbounded histories of accepted adds, rejected adds cut "
               "after any bookkeeping step, and append-mode reopens; all event shapes; all option sets that record "
               "particles) about an executable model of HDF5Writer.add and of the reader's index lookup; the model is "
@@ -278,6 +281,11 @@ def search(run, deep):
 def replay(run, data):
     inp = data["input"]
     with H.tempdir() as d:
+        if data.get("kind") == "corpus" and inp.get("name") == "shared_paths":
+            for what, obs, exp in shared_paths_probe(d):
+                run.fail_input("corpus", {"name": "shared_paths", "probe": what}, observed=obs, expected=exp,
+                               what="one ray path shared by several antennas: " + what)
+            return
         if data.get("kind") == "corpus" and inp.get("name") == "guards":
             for what, obs, exp in guard_probes(d):
                 run.fail_input("corpus", {"name": "guards", "probe": what}, observed=obs, expected=exp,
@@ -440,8 +448,67 @@ def guard_probes(d):
     return bad
 
 
+def shared_paths_probe(d):
+    """ONE real ray-path object handed to several antennas in a single add(), with a different polarization
+    per antenna: every antenna's stored polarization is its own, the other path columns are the path's, and
+    the path objects' own `_metadata` is the same before and after (the writer must not leave its additions
+    inside the path) -> list of (what, observed, expected)"""
+    import copy
+    import numpy as np
+    from pyrex.io import File
+    from pyrex.ray_tracing import BasicRayTracer, SpecializedRayTracer
+    bad = []
+    for tracer in (SpecializedRayTracer, BasicRayTracer):
+        sols = tracer((0.0, 0.0, -500.0), (120.0, 30.0, -100.0)).solutions
+        if len(sols) != 2:
+            bad.append(("%s solutions for the probe geometry" % tracer.__name__, len(sols), 2))
+            continue
+        spec = _spec("110100", "F", [_A(np_=1, rays=(2, 2, 1), waves=(0, 0, 0)), _A(np_=2, rays=(1, 2, 2), waves=(0, 0, 0))], nant=3)
+        fn = os.path.join(d, "shared_%s.h5" % tracer.__name__)
+        ants = H.make_detector(spec)
+        before = [copy.deepcopy(p._metadata) for p in sols]
+        w = File(fn, "w", **H.writer_kwargs(spec))
+        w.open()
+        given = []
+        try:
+            w.set_detector(ants)
+            for c, op in enumerate(spec["ops"]):
+                ev, _kw, _rec = H.build_call(spec, c, op, ants)
+                paths = [[sols[k] for k in range(op["rays"][i])] for i in range(3)]      # the SAME objects per antenna
+                pols = [[(0.5 + i + 10 * c, -1.0 - k, 0.25 * (i + 1) * (k + 1)) for k in range(op["rays"][i])] for i in range(3)]
+                w.add(ev, triggered=True, ray_paths=paths, polarizations=pols)
+                given.append((op["rays"], pols))
+                after = [p._metadata for p in sols]
+                if after != before:
+                    bad.append(("%s: path._metadata changed by add() number %d" % (tracer.__name__, c),
+                                sorted(set(after[0]) ^ set(before[0])) or "values", "unchanged"))
+        finally:
+            w.close()
+        with File(fn, "r") as f:
+            for c, (ev, (rays, pols)) in enumerate(zip(f, given)):
+                pol = ev.get_rays_info("polarization")
+                tof = ev.get_rays_info("tof")
+                for i in range(3):
+                    for k in range(rays[i]):
+                        if tuple(float(x) for x in pol[k][i]) != tuple(float(x) for x in pols[i][k]):
+                            bad.append(("%s: event %d antenna %d solution %d polarization" % (tracer.__name__, c, i, k),
+                                        tuple(float(x) for x in pol[k][i]), pols[i][k]))
+                        if float(tof[k][i]) != float(before[k]["tof"]):
+                            bad.append(("%s: event %d antenna %d solution %d tof" % (tracer.__name__, c, i, k),
+                                        float(tof[k][i]), float(before[k]["tof"])))
+        os.remove(fn)
+    return bad[:4]
+
+
 def corpus(run):
     ok = True
+    with H.tempdir() as d:
+        for what, obs, exp in shared_paths_probe(d):
+            ok = False
+            run.fail_input("corpus", {"name": "shared_paths", "probe": what}, observed=obs, expected=exp,
+                           what="one ray path shared by several antennas: " + what)
+        run.case(("corpus", "shared_paths"))
+        run.count("corpus_cases")
     with H.tempdir() as d:
         for what, obs, exp in guard_probes(d):
             ok = False
